@@ -56,6 +56,17 @@ func qs(ss ...string) []string {
 	return out
 }
 
+// normalizerKey: configs with the same "normalizer" section share one compiled normalizer (as the processors of one
+// action do in production); compiling the built-in pattern set takes ~7 s
+func normalizerKey(js string) string {
+	if i := strings.Index(js, `"normalizer":`); i >= 0 {
+		return js[i:]
+	}
+	return "default"
+}
+
+func heavy(cs cfgSpec) cfgSpec { cs.Heavy = true; return cs }
+
 func c(js string, keys ...string) cfgSpec { return cfgSpec{JSON: js, Keys: keys} }
 
 func docsOf(key string, vals ...string) []string {
@@ -266,7 +277,7 @@ func allSpecs() []*pluginSpec {
 	}})
 
 	parseEsSeq := []string{`{"index":{"_index":"a"}}`, `{"create":{}}`, `{"update":{}}`, `{"delete":{}}`, `{"a":"a"}`, `{"index":1,"delete":1}`, `[1]`, `{"index":` + badUTF8 + `}`, `"a"`}
-	add(&pluginSpec{Type: "parse_es", Timeouts: true, Stateful: true, Seq: parseEsSeq, Configs: []cfgSpec{
+	add(&pluginSpec{Type: "parse_es", Timeouts: true, Stateful: true, Seq: parseEsSeq, Prefix: []string{`{"index":{}}`}, Configs: []cfgSpec{
 		c(`{}`, "index", "update"), c(`{}`, "delete", "create"),
 		{JSON: `{}`, Keys: []string{"index"}, Settings: &settingsSpec{IsStrict: true}},
 	}})
@@ -296,20 +307,20 @@ func allSpecs() []*pluginSpec {
 	}})
 
 	hashExtra := qs("error 1.2.3.4 at 2025-01-13T10:20:40Z id=7c1811ed-e98f-4c9c-a9f9-58c757ff494f", "[a, b] (c) {d} 'e' \"f\" `g`", "\"unterminated", "((((", "0x", "-", "a@b.c http://x /a/b 1m5s 0x1f 1.5 -2 TRUE")
-	add(&pluginSpec{Type: "hash", Extra: hashExtra, Reset: hash.VerifResetNormalizerCache, Configs: []cfgSpec{
-		c(`{"fields":[{"field":"a"}],"result_field":"h"}`, "a", "h"), c(`{"fields":[{"field":"a","max_size":1}],"result_field":"h"}`, "a"),
-		c(`{"fields":[{"field":"a","max_size":-1}],"result_field":"h"}`, "a"), c(`{"fields":[{"field":"a","max_size":1000}],"result_field":"a"}`, "a"),
-		c(`{"fields":[{"field":"a.b"},{"field":"b"}],"result_field":"a.h"}`, "a.b", "b"), c(`{"fields":[{"field":"a"}],"result_field":"a.b"}`, "a.b"),
-		c(`{"fields":[{"field":"a","format":"normalize"}],"result_field":"h"}`, "a"),
-		c(`{"fields":[{"field":"a","format":"normalize","max_size":5}],"result_field":"h"}`, "a"),
+	add(&pluginSpec{Type: "hash", Extra: hashExtra, Reset: func(cs *cfgSpec) { hash.VerifUseNormalizerCache(normalizerKey(cs.JSON)) }, Configs: []cfgSpec{
+		c(`{"fields":[{"field":"a","format":"no"}],"result_field":"h"}`, "a", "h"), c(`{"fields":[{"field":"a","format":"no","max_size":1}],"result_field":"h"}`, "a"),
+		c(`{"fields":[{"field":"a","format":"no","max_size":-1}],"result_field":"h"}`, "a"), c(`{"fields":[{"field":"a","format":"no","max_size":1000}],"result_field":"a"}`, "a"),
+		heavy(c(`{"fields":[{"field":"a.b","format":"no"},{"field":"b","format":"normalize"}],"result_field":"a.h"}`, "a.b", "b")), c(`{"fields":[{"field":"a","format":"no"}],"result_field":"a.b"}`, "a.b"), c(`{"fields":[{"field":"a"}],"result_field":"h"}`, "a"),
+		heavy(c(`{"fields":[{"field":"a","format":"normalize"}],"result_field":"h"}`, "a")),
+		heavy(c(`{"fields":[{"field":"a","format":"normalize","max_size":5}],"result_field":"h"}`, "a")),
 		c(`{"fields":[{"field":"a","format":"normalize"}],"result_field":"h","normalizer":{"builtin_patterns":"no"}}`, "a"),
 		c(`{"fields":[{"field":"a","format":"normalize"}],"result_field":"h","normalizer":{"builtin_patterns":"square_bracketed|ip"}}`, "a"),
 		c(`{"fields":[{"field":"a","format":"normalize"}],"result_field":"h","normalizer":{"builtin_patterns":"bogus"}}`, "a"),
 		c(`{"fields":[{"field":"a","format":"normalize"}],"result_field":"h","normalizer":{"builtin_patterns":"no","custom_patterns":[{"placeholder":"<q>","re":"\"[^\"]*\"","priority":"first"},{"placeholder":"<d>","re":"\\d\\d","priority":"last"}]}}`, "a"),
 		c(`{"fields":[{"field":"a","format":"normalize"}],"result_field":"h","normalizer":{"builtin_patterns":"all","custom_patterns":[{"placeholder":"","re":"a"}]}}`, "a"),
 		c(`{"fields":[{"field":"a","format":"normalize"}],"result_field":"h","normalizer":{"builtin_patterns":"no","custom_patterns":[{"placeholder":"<x>","re":"(","priority":"first"}]}}`, "a"),
-		c(`{"fields":[{"field":"a","format":"bogus"}],"result_field":"h"}`, "a"), c(`{"fields":[],"result_field":"h"}`, "a"), c(`{"fields":[{"field":"a"}]}`, "a"),
-		c(`{"fields":[{"field":""}],"result_field":"h"}`, "a"), c(`{"fields":[{"field":"a"}],"result_field":""}`, "a"),
+		c(`{"fields":[{"field":"a","format":"bogus"}],"result_field":"h"}`, "a"), c(`{"fields":[],"result_field":"h"}`, "a"), c(`{"fields":[{"field":"a","format":"no"}]}`, "a"),
+		c(`{"fields":[{"field":""}],"result_field":"h"}`, "a"), c(`{"fields":[{"field":"a","format":"no"}],"result_field":""}`, "a"),
 	}})
 
 	// ---- decode ----
@@ -351,7 +362,7 @@ func allSpecs() []*pluginSpec {
 	joinSeq := docsOf("a", `"start"`, `" cont"`, `"other"`, `""`, `0`, `null`, `{"b":"start"}`, badUTF8, long300)
 	joinSeq = append(joinSeq, `{}`, `[1]`, `{"a":"start","a":" cont"}`)
 	joinCfg := func(js string, st *settingsSpec) cfgSpec { return cfgSpec{JSON: js, Keys: []string{"a"}, Settings: st} }
-	add(&pluginSpec{Type: "join", Timeouts: true, Stateful: true, Seq: joinSeq, Extra: qs("start", " cont", "start cont", "st"), Configs: []cfgSpec{
+	add(&pluginSpec{Type: "join", Timeouts: true, Stateful: true, Seq: joinSeq, Prefix: []string{`{"a":"start"}`}, Extra: qs("start", " cont", "start cont", "st"), Configs: []cfgSpec{
 		joinCfg(`{"field":"a","start":"/^start/","continue":"/^\\s/"}`, nil),
 		joinCfg(`{"field":"a","start":"/^start/","continue":"/^\\s/","negate":true}`, nil),
 		joinCfg(`{"field":"a","start":"/^start/","continue":"/^\\s/","max_event_size":1}`, nil),
@@ -368,7 +379,7 @@ func allSpecs() []*pluginSpec {
 		{JSON: `{"field":"a.b","start":"/^start/","continue":"/^\\s/"}`, Keys: []string{"a.b"}, Seq: []string{`{"a":{"b":"start"}}`, `{"a":{"b":" cont"}}`, `{"a":"start"}`, `{"a":{"b":{}}}`, `{}`, `{"a":{"b":"other"}}`}},
 	}})
 
-	jtVals := []string{`"panic: a"`, `"fatal error: x"`, `"goroutine 1 [running]:"`, `"goroutine "`, `"goroutine 1"`, `"goroutine x ["`, `")"`, `".()"`, `"()"`, `"a.b()"`, `"a.(b)c()"`, `"main.f(0x1)"`, `"\tfile.go:1 +0x1"`, `".go:"`, `"created by "`,
+	jtVals := []string{`"panic: a"`, `"fatal error: x"`, `"goroutine 1 [running]:"`, `"goroutine "`, `"goroutine 1"`, `"goroutine x ["`, `")"`, `".()"`, `"()"`, `"f()"`, `"f(x)"`, `"a.b()"`, `"a.(b)c()"`, `"main.f(0x1)"`, `"\tfile.go:1 +0x1"`, `".go:"`, `"created by "`,
 		`"created by a.b"`, `" "`, `""`, `"panic"`, `"panic(0x"`, `"[signal"`, `"<autogenerated>:1"`, `"Unhandled exception. System.X: y"`, `"   at A.B()"`, `"at"`, `" ---> System.X: y"`, `"--->"`, `"   --- End of inner exception stack trace ---"`,
 		`"Exception:"`, `"x Exception: y"`, `"WARNING: DATA RACE"`, `"=================="`, `"Previous write at 0x1 by goroutine 1:"`, `0`, `null`, `{}`, badUTF8, long300, `"é)"`, `"(é"`, `".é()"`, `"a.é("`, `"é.go:1"`}
 	jtSeq := docsOf("log", `"panic: a"`, `"goroutine 1 [running]:"`, `"main.f(0x1)"`, `"other"`, `"Unhandled exception. X"`, `"   at A.B()"`, `"WARNING: DATA RACE"`, `"=================="`, `""`, `0`)
@@ -376,9 +387,12 @@ func allSpecs() []*pluginSpec {
 	jt := func(js, key string) cfgSpec {
 		return cfgSpec{JSON: js, Keys: []string{key}}
 	}
+	jtp := func(js string, prefix ...string) cfgSpec {
+		return cfgSpec{JSON: js, Keys: []string{"log"}, Prefix: prefix}
+	}
 	add(&pluginSpec{Type: "join_template", Timeouts: true, Stateful: true, Seq: jtSeq, Extra: jtVals, Configs: []cfgSpec{
-		jt(`{"template":"go_panic"}`, "log"), jt(`{"template":"cs_exception"}`, "log"), jt(`{"template":"go_data_race"}`, "log"),
-		jt(`{"templates":["go_panic","cs_exception","go_data_race"]}`, "log"), jt(`{"templates":["go_data_race","go_panic"],"max_event_size":10}`, "log"),
+		jtp(`{"template":"go_panic"}`, `{"log":"panic: a"}`), jtp(`{"template":"cs_exception"}`, `{"log":"Unhandled exception. X"}`), jtp(`{"template":"go_data_race"}`, `{"log":"WARNING: DATA RACE"}`),
+		jtp(`{"templates":["go_panic","cs_exception","go_data_race"]}`, `{"log":"Unhandled exception. X"}`), jtp(`{"templates":["cs_exception","go_panic"],"max_event_size":20}`, `{"log":"panic: a"}`, `{"log":"goroutine 1 [running]:"}`), jt(`{"templates":["go_data_race","go_panic"],"max_event_size":10}`, "log"),
 		jt(`{"template":"go_panic","templates":["cs_exception"]}`, "log"), jt(`{"template":"bogus"}`, "log"), jt(`{"templates":["go_panic","bogus"]}`, "log"),
 		jt(`{}`, "log"), jt(`{"templates":[]}`, "log"), jt(`{"template":"go_panic","field":""}`, "log"), jt(`{"template":"go_panic","max_event_size":-1}`, "log"),
 		{JSON: `{"template":"go_panic","field":"a.b"}`, Keys: []string{"a.b"}, Seq: []string{`{"a":{"b":"panic: a"}}`, `{"a":{"b":"main.f(0x1)"}}`, `{"a":"panic: a"}`, `{}`, `{"a":{"b":"other"}}`}},
@@ -443,7 +457,7 @@ func allSpecs() []*pluginSpec {
 		}
 		return cfgSpec{JSON: js, Keys: keys}
 	}
-	add(&pluginSpec{Type: "throttle", Stateful: true, Seq: thrSeq, Extra: thrExtra, Reset: throttle.VerifReset,
+	add(&pluginSpec{Type: "throttle", Stateful: true, Seq: thrSeq, Extra: thrExtra, Reset: func(*cfgSpec) { throttle.VerifReset() },
 		After:   func() { throttle.VerifSetNow("verif", func() time.Time { return fixedNow }) },
 		Skipped: []string{"limiter_backend=redis", "redis_backend_config.* (20 options: need a redis server)"},
 		Configs: []cfgSpec{
@@ -454,9 +468,9 @@ func allSpecs() []*pluginSpec {
 			th(`{"throttle_field":"a","buckets_count":1,"default_limit":1}`), th(`{"throttle_field":"a","buckets_count":0,"default_limit":1}`), th(`{"throttle_field":"a","buckets_count":-1,"default_limit":1}`), th(`{"throttle_field":"a","buckets_count":2,"bucket_interval":"1s","default_limit":1}`),
 			th(`{"throttle_field":"a","bucket_interval":"0s","default_limit":1}`), th(`{"throttle_field":"a","bucket_interval":"1ns","default_limit":1}`), th(`{"throttle_field":"a","bucket_interval":"-1s","default_limit":1}`), th(`{"throttle_field":"a","bucket_interval":"bogus"}`),
 			th(`{"throttle_field":"a","bucket_interval":"10000h","buckets_count":1000,"default_limit":1}`), th(`{"throttle_field":"a","limiter_expiration":"0s","default_limit":1}`), th(`{"throttle_field":"a","limiter_expiration":"bogus"}`),
-			th(`{"throttle_field":"a","default_limit":1,"rules":[{"limit":1,"conditions":{"b":"x"}},{"limit":0,"limit_kind":"size","conditions":{"b":"y","a":"a"}}]}`, "time", "a", "b"),
-			th(`{"throttle_field":"a","default_limit":1,"rules":[{"limit":-1,"conditions":{"b":"x"}},{"limit":1,"conditions":{}}]}`, "time", "a", "b"), th(`{"throttle_field":"a","rules":[{"limit":1,"limit_kind":"bogus","conditions":{"b":"x"}}]}`, "time", "a", "b"),
-			th(`{"throttle_field":"a","default_limit":1,"rules":[{"limit":1,"conditions":{"b.c":"x","":"y"}}]}`, "time", "a", "b"),
+			th(`{"throttle_field":"a","default_limit":1,"rules":[{"limit":1,"limit_kind":"count","conditions":{"b":"x"}},{"limit":0,"limit_kind":"size","conditions":{"b":"y","a":"a"}}]}`, "time", "a", "b"),
+			th(`{"throttle_field":"a","default_limit":1,"rules":[{"limit":-1,"limit_kind":"count","conditions":{"b":"x"}},{"limit":1,"limit_kind":"size","conditions":{}}]}`, "time", "a", "b"), th(`{"throttle_field":"a","rules":[{"limit":1,"limit_kind":"bogus","conditions":{"b":"x"}}]}`, "time", "a", "b"),
+			th(`{"throttle_field":"a","default_limit":1,"rules":[{"limit":1,"limit_kind":"count","conditions":{"b.c":"x","":"y"}}]}`, "time", "a", "b"),
 			th(`{"throttle_field":"a","default_limit":2,"limit_distribution":{"field":"b","ratios":[{"ratio":0.5,"values":["x"]},{"ratio":0.3,"values":["y","z"]}]}}`, "time", "a", "b"),
 			th(`{"throttle_field":"a","default_limit":1,"limit_kind":"size","limit_distribution":{"field":"b","ratios":[{"ratio":1,"values":["x"]}],"metric_labels":["l"]}}`, "time", "a", "b", "l"),
 			th(`{"throttle_field":"a","default_limit":0,"limit_distribution":{"field":"b","ratios":[{"ratio":0.5,"values":["x"]}],"metric_labels":["l","b"]}}`, "time", "a", "b", "l"),
@@ -464,16 +478,17 @@ func allSpecs() []*pluginSpec {
 			th(`{"throttle_field":"a","limit_distribution":{"field":"b","ratios":[{"ratio":1.5,"values":["x"]}]}}`), th(`{"throttle_field":"a","limit_distribution":{"field":"b","ratios":[{"ratio":0.6,"values":["x"]},{"ratio":0.6,"values":["y"]}]}}`),
 			th(`{"throttle_field":"a","limit_distribution":{"field":"b","ratios":[{"ratio":0.5,"values":[]}]}}`), th(`{"throttle_field":"a","limit_distribution":{"field":"b","ratios":[{"ratio":0.5,"values":["x","x"]}]}}`), th(`{"throttle_field":"a","limit_distribution":{"field":"","ratios":[{"ratio":0.5,"values":["x"]}]}}`),
 			th(`{"throttle_field":"a","limit_distribution":{"field":"b","ratios":[{"ratio":-0.5,"values":["x"]}]}}`), th(`{"throttle_field":"a","limit_distribution":{"field":"b","ratios":[{"ratio":0.5,"values":["x"]}],"metric_labels":["distribution_value"]}}`),
-			th(`{"throttle_field":"a","default_limit":1,"rules":[{"limit":2,"conditions":{"b":"x"},"limit_distribution":{"field":"l","ratios":[{"ratio":0.5,"values":["v"]}]}}]}`, "time", "a", "b", "l"),
+			th(`{"throttle_field":"a","default_limit":1,"rules":[{"limit":2,"limit_kind":"count","conditions":{"b":"x"},"limit_distribution":{"field":"l","ratios":[{"ratio":0.5,"values":["v"]}]}}]}`, "time", "a", "b", "l"),
+			th(`{"throttle_field":"a","default_limit":1,"rules":[{"limit":1,"conditions":{"b":"x"}}]}`, "time", "a", "b"),
 			th(`{"limiter_backend":"bogus"}`),
 		}})
 
 	// ---- k8s multiline ----
 	k8sSeq := docsOf("log", `"a"`, `"b\n"`, `"cc"`, `"\n"`, `""`, `0`, `null`, long300, `"é\n"`)
-	k8sSeq = append(k8sSeq, `{}`, `{"log":"a","k8s_pod":{}}`)
+	k8sSeq = append(k8sSeq, `{}`, `{"log":"a","k8s_pod":{}}`, `{"log":"\u0000"}`, `{"log":"a\\"}`, `{"log":"\""}`)
 	k8sExtra := []string{`"b\n"`, `"\n"`, `"\\n"`, `"a\\"`, `"\\"`, `"n"`, `"\n\n"`, `"é"`, `"aa"`, `"\""`, `"\"\n"`, `"\u0000"`, `"\u000a"`, `"a\u000a"`, `false`}
 	k8 := func(js string, st *settingsSpec) cfgSpec { return cfgSpec{JSON: js, Keys: []string{"log"}, Settings: st} }
-	add(&pluginSpec{Type: "k8s-multiline", Timeouts: true, Stateful: true, Seq: k8sSeq, Extra: k8sExtra, Prep: k8sPrep,
+	add(&pluginSpec{Type: "k8s-multiline", Timeouts: true, Stateful: true, Seq: k8sSeq, Extra: k8sExtra, Prep: k8sPrep, Prefix: []string{`{"log":"abc"}`},
 		Skipped: []string{"file_config.*, watching_dir, offsets_file, meta, meta_file, deleted_pods_cache_size: options of the input plugin, not read by the action"},
 		Configs: []cfgSpec{
 			k8(`{"offsets_file":"/tmp/o.yaml"}`, nil), k8(`{"offsets_file":"/tmp/o.yaml","only_node":true}`, nil),
@@ -484,6 +499,9 @@ func allSpecs() []*pluginSpec {
 			k8(`{"offsets_file":"/tmp/o.yaml"}`, &settingsSpec{MaxEventSize: 1, CutOffEventByLimit: true, CutOffField: "log", SourceNameMetaField: "z"}),
 			k8(`{"offsets_file":"/tmp/o.yaml"}`, &settingsSpec{MaxEventSize: 2, SourceNameMetaField: "k8s_pod"}),
 			k8(`{"offsets_file":"/tmp/o.yaml"}`, &settingsSpec{MaxEventSize: 310, CutOffEventByLimit: true}),
+			k8(`{"offsets_file":"/tmp/o.yaml"}`, &settingsSpec{MaxEventSize: 5, CutOffEventByLimit: true}),
+			k8(`{"offsets_file":"/tmp/o.yaml"}`, &settingsSpec{MaxEventSize: 6, CutOffEventByLimit: true, CutOffField: "cut"}),
+			k8(`{"offsets_file":"/tmp/o.yaml"}`, &settingsSpec{MaxEventSize: 7, CutOffEventByLimit: true}),
 			k8(`{}`, nil),
 		}})
 
